@@ -1,6 +1,6 @@
 (* Extraction of the C04 models for the correspondence check. ExtrOcamlBasic only. *)
 From V.lib Require Import Base.
-From V.c04 Require Import C04Model C04AsmModel C04AllocModel C04MfraModel C04TreeModel.
+From V.c04 Require Import C04Model C04AsmModel C04AllocModel C04MfraModel C04TreeModel C04XrefModel.
 Require Import ExtrOcamlBasic.
 Separate Extraction
   rstate rop rval rstep rnew rpos rerr
@@ -8,4 +8,5 @@ Separate Extraction
   topshape trafshape sidxshape moovshape opts fstate assemble encode_file info_file
   xshape assemble_x tbl_leaves
   obs_segment f_frag f_init f_mdat f_sidxs f_mfra f_children f_segs
+  xtraf sbgpc sgpdc sencc entryk moof_senc_pass_x picked_senc se_unparsed group_lookup_gen
   aout o_ok o_count o_alloc o_iters alloc_box_sr alloc_box_r name_of senc_box.
